@@ -85,7 +85,7 @@ theorem id_canonical (E : Env) (fs : FS) (h : List Op) (x : Str) (hx : Res.id x 
     · exact ih _ hx
 
 example : Res.id "3f0e7c1a-5b2d-4e6f-8a9b-0c1d2e3f4a5b".toList ∈
-    trace ⟨fun _ => true⟩ ⟨fun l => if l = .id then .file "3F0E7C1A5B2D1E6F0A9B0C1D2E3F4A5B".toList else .absent, fun _ => .absent⟩
+    trace ⟨fun _ => true, fun _ => false⟩ ⟨fun l => if l = .id then .file "3F0E7C1A5B2D1E6F0A9B0C1D2E3F4A5B".toList else .absent, fun _ => .absent⟩
       [.register, .readId .clientObj none []] := by decide
 
 /-! ### frames: which operation may touch what -/
@@ -134,11 +134,12 @@ theorem unregistration_paths_frame (E : Env) (fs : FS) :
 /-! ### the error branches -/
 
 /-- an OSError escapes only where the real calls raise one: a directory sits at a marker location that has
-    to be unlinked, or the identifier file (or the target of its symlink) is a directory -/
+    to be unlinked, the unlink is denied (EPERM / EACCES / EROFS / EBUSY … — every errno but ENOENT, for root and
+    non-root alike), or the identifier file (or the target of its symlink) is a directory -/
 theorem oserror_needs_directory (E : Env) (fs : FS) (op : Op) (hop : (op.isId || op.isMarker) = true)
     (h : (step E fs op).2 = .oserror) :
-    (∃ l, look E fs l = .dir) ∨ (∃ k, look E fs .id = .link k ∧ fs.ext k = .dir) := by
-  have gen : ∀ new r f, (genId E fs new r f).2 = .oserror →
+    (∃ l, look E fs l = .dir ∨ E.denied l = true) ∨ (∃ k, look E fs .id = .link k ∧ fs.ext k = .dir) := by
+  have gen0 : ∀ new r f, (genId E fs new r f).2 = .oserror →
       (∃ l, look E fs l = .dir) ∨ (∃ k, look E fs .id = .link k ∧ fs.ext k = .dir) := by
     intro new r f h
     rcases genId_cases E fs new r f with ⟨c, _, _, _, hg⟩ | ⟨m, hg⟩
@@ -162,7 +163,11 @@ theorem oserror_needs_directory (E : Env) (fs : FS) (op : Op) (hop : (op.isId ||
             | absent => simp
             | file c => simp
             | dir => intro _; exact Or.inr ⟨k, by simp [look, hd, hn], he⟩
-  have wr : ∀ del mk c, del true ≠ del false → (writeState E del mk c fs).2 = .oserror → ∃ l, look E fs l = .dir := by
+  have gen : ∀ new r f, (genId E fs new r f).2 = .oserror →
+      (∃ l, look E fs l = .dir ∨ E.denied l = true) ∨ (∃ k, look E fs .id = .link k ∧ fs.ext k = .dir) :=
+    fun new r f h => (gen0 new r f h).imp (fun ⟨l, hl⟩ => ⟨l, Or.inl hl⟩) id
+  have wr : ∀ del mk c, del true ≠ del false → (writeState E del mk c fs).2 = .oserror →
+      ∃ l, look E fs l = .dir ∨ E.denied l = true := by
     intro del mk c hne h
     unfold writeState at h
     simp only at h
@@ -171,7 +176,8 @@ theorem oserror_needs_directory (E : Env) (fs : FS) (op : Op) (hop : (op.isId ||
     · rename_i hf
       obtain ⟨d, hd⟩ := deleteMarkers_false E del fs hne (by simpa using hf)
       exact ⟨_, hd⟩
-  have dl : ∀ mk, mk true ≠ mk false → ofOk (deleteMarkers E mk fs).2 = .oserror → ∃ l, look E fs l = .dir := by
+  have dl : ∀ mk, mk true ≠ mk false → ofOk (deleteMarkers E mk fs).2 = .oserror →
+      ∃ l, look E fs l = .dir ∨ E.denied l = true := by
     intro mk hne h
     cases hf : (deleteMarkers E mk fs).2 with
     | true => rw [hf] at h; cases h
@@ -192,7 +198,7 @@ theorem oserror_needs_directory (E : Env) (fs : FS) (op : Op) (hop : (op.isId ||
   | handleUnregistration force => cases hop
   | registrationCheck http r f => cases hop
 
-example : (step ⟨fun _ => true⟩ ⟨fun l => if l = .unreg true then .dir else .absent, fun _ => .absent⟩ .register).2 = .oserror := by
+example : (step ⟨fun _ => true, fun _ => false⟩ ⟨fun l => if l = .unreg true then .dir else .absent, fun _ => .absent⟩ .register).2 = .oserror := by
   decide
 
 /-! ### (3) a read never rewrites an existing identifier file -/
@@ -211,7 +217,7 @@ theorem read_never_rewrites (E : Env) (fs : FS) (rd : Reader) (r : Option Str) (
     (step E fs (.readId rd r f)).1 = fs ∧ (step E fs (.readId rd r f)).2 = ofCanon c := by
   simp [(read_is_file E fs rd r f c h hc).1]
 
-example : readsAs ⟨fun _ => true⟩ ⟨fun l => if l = .id then .link 2 else .absent, fun k => if k = 2 then .file ['x'] else .absent⟩
+example : readsAs ⟨fun _ => true, fun _ => false⟩ ⟨fun l => if l = .id then .link 2 else .absent, fun k => if k = 2 then .file ['x'] else .absent⟩
     = some ['x'] := by decide
 
 /-- along any history without a request for a new identifier a non-empty identifier file keeps its bytes -/
@@ -281,17 +287,17 @@ theorem readers_agree (E : Env) (hD : E.has false = true) (fs : FS) (h : List Op
     (step E (exec E fs (h ++ [.readId rd1 r1 f1])) (.readId rd2 r2 f2)).2 = .id x :=
   id_stable_partial E hD fs h (.readId rd1 r1 f1) [] rd2 r2 f2 x rfl hx (by simp)
 
-example : (step ⟨fun _ => true⟩ (exec ⟨fun _ => true⟩ ⟨fun _ => .absent, fun _ => .absent⟩
+example : (step ⟨fun _ => true, fun _ => false⟩ (exec ⟨fun _ => true, fun _ => false⟩ ⟨fun _ => .absent, fun _ => .absent⟩
     [.connUnregister, .newId .createSystem none "11111111-1111-4111-8111-111111111111".toList, .register])
     (.readId .clientFn none [])).2 = .id "11111111-1111-4111-8111-111111111111".toList := by decide
 
-example : (⟨fun d => !d⟩ : Env).has false = true := rfl
+example : (⟨fun d => !d, fun _ => false⟩ : Env).has false = true := rfl
 
 /-- …and is FALSE without it: directory absent, two reads, two different identifiers (known finding
     `absent-config-dir`; replayed against the implementation from corpus/C17/absent-config-dir.json) -/
 theorem id_unstable_witness : ¬ IdStable := by
   intro h
-  have := h ⟨fun _ => false⟩ ⟨fun _ => .absent, fun _ => .absent⟩ []
+  have := h ⟨fun _ => false, fun _ => false⟩ ⟨fun _ => .absent, fun _ => .absent⟩ []
     (.readId .default none "11111111-1111-4111-8111-111111111111".toList) [] .clientFn none
     "22222222-2222-4222-8222-222222222222".toList "11111111-1111-4111-8111-111111111111".toList rfl (by decide) (by simp)
   revert this
@@ -359,6 +365,55 @@ theorem excl_preserved (E : Env) (fs : FS) (op : Op) (h : Excl E fs) : Excl E (s
   | handleUnregistration force => exact handleUnregistration_excl E fs force h
   | registrationCheck http r f => exact registrationCheck_excl E fs http r f h
 
+/-- the faulted removal: when unlinking the opposite marker is denied (any errno but ENOENT, any uid) the
+    register / unregister raises BEFORE the new marker is written — markers that did not coexist still do not,
+    in the default and in the legacy directory, and nothing at the new marker's location changed -/
+theorem denied_removal_fails_before_write (E : Env) (fs : FS) (d : Bool) (hd : E.has d = true) :
+    (E.denied (.unreg d) = true → (∃ n, look E fs (.unreg d) = n ∧ n ≠ .absent) →
+      (step E fs .register).2 = .oserror ∧ ∀ d', look E (step E fs .register).1 (.reg d') = look E fs (.reg d')) ∧
+    (∀ date, E.denied (.reg d) = true → (∃ n, look E fs (.reg d) = n ∧ n ≠ .absent) →
+      (step E fs (.unregister date)).2 = .oserror ∧
+        ∀ d', look E (step E fs (.unregister date)).1 (.unreg d') = look E fs (.unreg d')) := by
+  have key : ∀ (del mk : Bool → Loc) (c : Str), (∀ d, (del d).dir = d) → (∀ a b, mk a ≠ del b) → E.denied (del d) = true →
+      (∃ n, look E fs (del d) = n ∧ n ≠ .absent) →
+      (writeState E del mk c fs).2 = .oserror ∧ ∀ d', look E (writeState E del mk c fs).1 (mk d') = look E fs (mk d') := by
+    intro del mk c hdir hne hden ⟨n, hn, hna⟩
+    have hfail : (deleteMarkers E del fs).2 = false := by
+      cases hok : (deleteMarkers E del fs).2 with
+      | false => rfl
+      | true =>
+        -- had the loop returned, the denied marker would be gone; but a denied unlink removes nothing
+        exfalso
+        have gone := deleteMarkers_ok E del fs hok d
+        have keep : ∀ (s : FS), look E s (del d) ≠ .absent → (wtdDelete E s (del d)).2 = true → False := by
+          intro s hs hw
+          unfold wtdDelete at hw
+          simp only [hdir, hd, Bool.not_true, Bool.false_eq_true, if_false, hden, if_true] at hw
+          unfold look at hs
+          simp only [hdir, hd, if_true] at hs
+          split at hw <;> simp_all
+        unfold deleteMarkers forDirs at hok
+        simp only at hok
+        split at hok
+        · rename_i h1
+          cases d
+          · exact keep fs (by rw [hn]; exact hna) h1
+          · refine keep _ ?_ hok
+            rw [onlyAt_look (wtdDelete_onlyAt E fs (del false)) E (del true)
+              (by intro e; have := hdir true; rw [e, hdir false] at this; cases this), hn]
+            exact hna
+        · cases hok
+    rcases writeState_res E del mk c fs with ⟨_, hok, _⟩ | ⟨herr, hfs⟩
+    · rw [hfail] at hok; cases hok
+    · refine ⟨herr, fun d' => ?_⟩
+      rw [hfs, onlyMk_look (deleteMarkers_onlyMk E del fs) E (mk d') (fun b => hne d' b)]
+  refine ⟨fun hden hn => ?_, fun date hden hn => ?_⟩
+  · exact key .unreg .reg timeStamp (fun _ => rfl) (by intro a b; simp) hden hn
+  · exact key .reg .unreg (dateOr date) (fun _ => rfl) (by intro a b; simp) hden hn
+
+example : (step ⟨fun _ => true, fun l => l = .reg false⟩ ⟨fun l => if l = .reg false then .file ['r'] else .absent, fun _ => .absent⟩
+    (.unregister none)).2 = .oserror := by decide
+
 theorem excl_exec (E : Env) (fs : FS) (h : List Op) (hx : Excl E fs) : Excl E (exec E fs h) := by
   induction h generalizing fs with
   | nil => exact hx
@@ -371,7 +426,7 @@ theorem markers_exclusive (E : Env) (fs : FS) (h1 : List Op) (op : Op) (h2 : Lis
   rw [exec_append]
   exact excl_exec E _ h2 (writer_establishes_excl E _ op hop hr)
 
-example : (step ⟨fun _ => true⟩ ⟨fun l => match l with | .id => .absent | .reg _ => .link 0 | .unreg _ => .file ['o'],
+example : (step ⟨fun _ => true, fun _ => false⟩ ⟨fun l => match l with | .id => .absent | .reg _ => .link 0 | .unreg _ => .file ['o'],
     fun _ => .absent⟩ .register).2 = .done := by decide
 
 /-! ### (5) a symlink planted at a marker location is replaced, not followed -/
@@ -426,7 +481,7 @@ theorem symlink_replaced (E : Env) (fs : FS) (op : Op) (hop : op.isWriter = true
       exact ⟨(key _ _).1, (key _ _).2, fr⟩
     | _ => cases hop
 
-example : look ⟨fun _ => true⟩ (step ⟨fun _ => true⟩ ⟨fun l => if l = .reg false then .link 1 else .absent, fun _ => .dir⟩ .register).1
+example : look ⟨fun _ => true, fun _ => false⟩ (step ⟨fun _ => true, fun _ => false⟩ ⟨fun l => if l = .reg false then .link 1 else .absent, fun _ => .dir⟩ .register).1
     (.reg false) = .file timeStamp := by decide
 
 end IV.ClientState
